@@ -205,15 +205,46 @@ func (f *Frame) enterLoop(li *loopInfo, cur *State, rc *runCtx) {
 			break
 		}
 		li.preVals[phi] = f.vals[phi]
-		f.vals[phi] = u.freshVal(cur, phi.Type(), "loop!"+phi.Name())
+		nv := u.freshVal(cur, phi.Type(), "loop!"+phi.Name())
+		if pv := li.preVals[phi]; pv != nil && pv.Sl != nil && pv.Sl.Off.S == "0" && nv.Sl != nil {
+			// slices built by make/append/literals start at offset 0 of their array; keep that
+			// (re-checked on every back edge)
+			nv.Sl.Off = intLit(0)
+			if li.zeroOff == nil {
+				li.zeroOff = map[*ssa.Phi]bool{}
+			}
+			li.zeroOff[phi] = true
+		}
+		if lb, ok := f.monotoneLowerBound(li, phi); ok && nv.T.Sort == SInt {
+			// a counter that starts at a constant and is only incremented never drops below its start
+			// (re-checked on back edges)
+			u.assume(cur, app(SBool, ">=", nv.T, lb))
+			if li.lower == nil {
+				li.lower = map[*ssa.Phi]T{}
+			}
+			li.lower[phi] = lb
+		}
+		f.vals[phi] = nv
 	}
 	written := map[string]Sort{}
 	bases := map[string][]T{}
 	variant := map[string]bool{}
+	everything := false
 	for _, w := range log {
+		if w.key == "*" {
+			everything = true
+			continue
+		}
 		written[w.key] = w.sort
 	}
 	for _, w := range log {
+		if w.key == "*" {
+			continue
+		}
+		if w.whole {
+			variant[w.key] = true
+			continue
+		}
 		d := u.depsOf(w.base.S)
 		inv := d.maxNum <= numBefore
 		for k := range d.keys {
@@ -248,6 +279,21 @@ func (f *Frame) enterLoop(li *loopInfo, cur *State, rc *runCtx) {
 	}
 	li.havocked = keys
 	li.frameB = map[string][]T{}
+	if everything {
+		// the body calls something that may modify everything: forget the heap
+		its := map[string]bool{}
+		for _, k := range keys {
+			if strings.HasPrefix(k, "IT:") {
+				its[k] = true
+			}
+		}
+		u.havocAll(cur)
+		for k := range its {
+			u.heapHavoc(cur, k, written[k])
+		}
+		keys = nil
+		li.havocked = nil
+	}
 	for _, k := range keys {
 		srt := written[k]
 		old := u.heapGet(li.pre, k, srt)
@@ -327,6 +373,16 @@ func (f *Frame) backEdge(li *loopInfo, from *ssa.BasicBlock, st *State, cond T) 
 			u.oblige(end, "inv-step", f.anchor+"loop "+li.key+"/"+label, ctx.evalBool(inv.E), "loop invariant is preserved: "+inv.Src)
 		}
 	}
+	for phi, lb := range li.lower {
+		if ev := edgeVals[phi]; ev != nil {
+			u.oblige(end, "loopframe", f.anchor+"loop "+li.key+"/counter "+phi.Comment+" >= start", app(SBool, ">=", ev.T, lb), "loop counter never drops below its initial value")
+		}
+	}
+	for phi := range li.zeroOff {
+		if ev := edgeVals[phi]; ev != nil && ev.Sl != nil {
+			u.oblige(end, "loopframe", f.anchor+"loop "+li.key+"/slice "+phi.Comment+" starts at offset 0", eq(ev.Sl.Off, intLit(0)), "slice variable keeps offset 0 across iterations")
+		}
+	}
 	// automatic frame
 	for _, k := range li.havocked {
 		bs, ok := li.frameB[k]
@@ -350,4 +406,38 @@ func (f *Frame) backEdge(li *loopInfo, from *ssa.BasicBlock, st *State, cond T) 
 	for phi, v := range saved {
 		f.vals[phi] = v
 	}
+}
+
+// monotoneLowerBound recognises phi = [const c on entry, phi + k (k >= 0) on every back edge].
+func (f *Frame) monotoneLowerBound(li *loopInfo, phi *ssa.Phi) (T, bool) {
+	if !isInteger(phi.Type()) {
+		return T{}, false
+	}
+	var lb *ssa.Const
+	for i, p := range li.header.Preds {
+		e := phi.Edges[i]
+		if isBackEdge(p, li.header) {
+			bo, ok := e.(*ssa.BinOp)
+			if !ok || bo.Op.String() != "+" || bo.X != phi {
+				return T{}, false
+			}
+			c, ok := bo.Y.(*ssa.Const)
+			if !ok || c.Value == nil || c.Int64() < 0 {
+				return T{}, false
+			}
+		} else {
+			c, ok := e.(*ssa.Const)
+			if !ok || c.Value == nil {
+				return T{}, false
+			}
+			if lb != nil && lb.Int64() != c.Int64() {
+				return T{}, false
+			}
+			lb = c
+		}
+	}
+	if lb == nil {
+		return T{}, false
+	}
+	return intLit(lb.Int64()), true
 }
